@@ -41,6 +41,9 @@ func runC08(c *Ctx) {
 	c08Literals(c, "C08.5")
 	c08FreshDecodeTarget(c, "C08.6")
 	c08TypeMapping(c, "C08.7")
+	ruleStripQuotes(c, "C08.8")
+	ruleEncodeFreshBuffer(c, "C08.9")
+	ruleMutatorAtomic(c, "C08.10")
 }
 
 // ---- C08.1 -----------------------------------------------------------------
@@ -741,6 +744,10 @@ func runC14(c *Ctx) {
 	c08SizeGuardOpt(c, "C14.1s", false)
 	c14StatementLoops(c, "C14.2")
 	c14CreateTable(c, "C14.3")
+	ruleCatalogNameMatch(c, "C14.4")
+	ruleEncodeFreshBuffer(c, "C14.5")
+	ruleLoopOnlyMutatorFails(c, "C14.6")
+	ruleMutatorAtomic(c, "C14.7")
 }
 
 func c14RowValidationFirst(c *Ctx, rule string) {
